@@ -655,14 +655,19 @@ func TestVerifE3Order(t *testing.T) {
 	for k := 0; k < c; k++ {
 		r.parts = append(r.parts, []byte(fmt.Sprintf("[%%d]", k+1)), []byte("\\n"))
 	}
-	res := make(chan Stream, 64)
+	res := make(chan Stream, %(resbuf)d)
 	done := make(chan struct{})
 	var order []string
 	var errs []string
 	closed := false
 	go func() {
 		defer close(done)
-		for s := range res {
+		for {
+			time.Sleep(%(delay)d * time.Millisecond)
+			s, more := <-res
+			if !more {
+				break
+			}
 			if s.Error != nil {
 				if s.Error == io.EOF {
 					errs = append(errs, "EOF")
@@ -714,7 +719,7 @@ def replay_order(ctx, w, benign=False):
     files["zz_verif_e3rt.go"] = RP.rt_source()
     steps = ", ".join('{"%s", "%s", %d, %d}' % tuple(s) for s in rp["steps"])
     files["zz_verif_e3order_test.go"] = ORDER_TEST % {
-        "g": g, "c": c, "steps": steps, "slots": ", ".join(str(x) for x in rp["slots"]), "preonly": ", ".join(str(x) for x in rp.get("pre_only", ())),
+        "resbuf": 64, "delay": 0, "g": g, "c": c, "steps": steps, "slots": ", ".join(str(x) for x in rp["slots"]), "preonly": ", ".join(str(x) for x in rp.get("pre_only", ())),
         "evsites": ", ".join('"%s"' % s for s in rp["event_sites"]), "alias": ", ".join('"%s": "%s"' % kv for kv in sorted(rp.get("alias", {}).items()))}
     rc, out, kv = RP.run_replay(files, "TestVerifE3Order", timeout=120)
     ctx.replays += 1
@@ -733,6 +738,17 @@ def replay_order(ctx, w, benign=False):
     else:
         # the forced schedule stalled: only an actual out-of-order delivery counts (missing items may be the stall's doing)
         bad = got != want[:len(got)]
+    if not bad and not benign:
+        # the witness may need a consumer of res that is not ready when the forwarder tries its non-blocking send: unbuffered
+        # channel, slow consumer, no forced schedule (correct code still delivers everything, in order, then EOF, then closes)
+        files["zz_verif_e3order_test.go"] = ORDER_TEST % {
+            "resbuf": 0, "delay": 60, "g": g, "c": c, "steps": "", "slots": "", "preonly": "", "evsites": "", "alias": ""}
+        rc, out, kv = RP.run_replay(files, "TestVerifE3Order", timeout=120)
+        ctx.replays += 1
+        if kv:
+            bad2 = kv.get("order") != expect or kv.get("errs") != "[EOF]" or kv.get("closed") != "true"
+            text += "; unbuffered res with a slow consumer: delivered %s, errors %s, closed %s" % (kv.get("order"), kv.get("errs"), kv.get("closed"))
+            return bad2, text
     return bad, text
 
 
